@@ -134,3 +134,116 @@ def features(case, data=None, delimited=True):
     labels.append("entry_" + case["entry"])
     nontrivial = len(stmts) >= 2 and bool(nt_bits)
     return labels, nontrivial
+
+
+# ============================================================================ rdflib
+RDFLIB_ENTRIES = ["serialize", "serialize_dest", "stream_frames", "flat_to_file", "grouped_to_file"]
+GROUPED_FOR = {"TRIPLES": [3, 13], "QUADS": [4, 14, 114], "GRAPHS": [4, 14, 114]}
+
+
+@st.composite
+def rdflib_write_case(draw, max_len=14, phys=None):
+    phys = phys or draw(st.sampled_from(["TRIPLES", "QUADS", "GRAPHS"]))
+    arity = 3 if phys == "TRIPLES" else 4
+    stmts = draw(gen.statement_seq(arity=arity, mode="rdflib", max_len=max_len))
+    entry = draw(st.sampled_from(RDFLIB_ENTRIES))
+    if phys == "GRAPHS" and entry in ("flat_to_file", "grouped_to_file"):
+        entry = "stream_frames"  # guess_stream never picks GraphStream
+    if not stmts and entry == "flat_to_file":
+        entry = "serialize"
+    flat_logical = 1 if phys == "TRIPLES" else 2
+    delimited = True
+    logical = flat_logical
+    if entry in ("serialize", "serialize_dest", "stream_frames"):
+        delimited = draw(st.integers(0, 3)) != 0
+    if delimited and entry != "flat_to_file" and draw(st.booleans()):
+        logical = draw(st.sampled_from(GROUPED_FOR[phys]))
+    return {
+        "integration": "rdflib",
+        "entry": entry,
+        "phys": phys,
+        "logical": logical,
+        "delimited": delimited,
+        "frame_size": draw(gen.frame_sizes),
+        "preset": draw(gen.preset_for(stmts)),
+        "params": {"generalized": False, "rdf_star": False, "stream_name": draw(gen.stream_names)},
+        "statements": stmts,
+        "reader": draw(st.sampled_from(["parse", "to_graph", "flat", "grouped"])),
+    }
+
+
+def rdflib_container(stmts, phys, bindings=None):
+    import rdflib
+    from rdflib import Dataset, Graph
+
+    if phys == "TRIPLES":
+        g = Graph(bind_namespaces="none") if bindings is not None else Graph()
+        for s in stmts:
+            g.add(tuple(T.to_rdflib(t) for t in s[:3]))
+    else:
+        g = Dataset(bind_namespaces="none") if bindings is not None else Dataset()
+        for s in stmts:
+            trip = tuple(T.to_rdflib(t) for t in s[:3])
+            if s[3][0] == "default":
+                g.add(trip)
+            else:
+                g.add((*trip, g.graph(T.to_rdflib(s[3]))))
+    for pfx, ns in bindings or ():
+        g.bind(pfx, rdflib.URIRef(ns), override=True, replace=True)
+    return g
+
+
+def write_rdflib(case):
+    """-> (bytes, delimited)."""
+    from pyjelly.integrations.rdflib import serialize as rser
+
+    entry = case["entry"]
+    stmts = case["statements"]
+    phys = case["phys"]
+    if entry in ("serialize", "serialize_dest"):
+        g = rdflib_container(stmts, phys)
+        stream = pyj.make_stream(case, "rdflib")
+        if entry == "serialize":
+            data = g.serialize(format="jelly", encoding="jelly", stream=stream, options=stream.options)
+        else:
+            out = io.BytesIO()
+            g.serialize(destination=out, format="jelly", stream=stream, options=stream.options)
+            data = out.getvalue()
+        return data, case["delimited"]
+    if entry == "stream_frames":
+        g = rdflib_container(stmts, phys)
+        stream = pyj.make_stream(case, "rdflib")
+        return pyj.frames_to_bytes(rser.stream_frames(stream, g), case["delimited"]), case["delimited"]
+    out = io.BytesIO()
+    if entry == "flat_to_file":
+        rser.flat_stream_to_file((s for s in pyj.conv_stmts(stmts, "rdflib")), out, options=pyj.make_options(case))
+    elif entry == "grouped_to_file":
+        rser.grouped_stream_to_file((x for x in [rdflib_container(stmts, phys)]), out, options=pyj.make_options(case))
+    else:
+        raise ValueError(entry)
+    return out.getvalue(), True
+
+
+def read_rdflib(data, reader, phys):
+    """-> set of normalized neutral statements (tuples)."""
+    from rdflib import Dataset, Graph
+
+    if reader == "parse":
+        sink = Graph() if phys == "TRIPLES" else Dataset()
+        sink.parse(data=data, format="jelly")
+        ev = pyj.sink_events(sink, "rdflib")
+    elif reader == "to_graph":
+        ev = pyj.sink_events(pyj.parse_to_graph(data, "rdflib"), "rdflib")
+    elif reader == "flat":
+        ev = pyj.only_statements(pyj.parse_flat(data, "rdflib"))
+    else:
+        ev = [s for frame in pyj.parse_grouped(data, "rdflib") for s in frame]
+    return {T.norm_stmt(s) if s[0] != "BAD" else ("BAD", repr(s)) for s in ev}
+
+
+def expected_rdflib(case):
+    """Ground truth = what the rdflib container built from the input holds (statement generators: the terms)."""
+    if case["entry"] == "flat_to_file":
+        return {T.norm_stmt([T.rdflib_canon(t) for t in s]) for s in case["statements"]}
+    cont = rdflib_container(case["statements"], case["phys"])
+    return {T.norm_stmt(s) for s in pyj.sink_events(cont, "rdflib")}
